@@ -41,6 +41,7 @@ def base_case(
     pg.nonrewind = plan_opts.pop("nonrewind", 0.0)  # readings taken with rewinding switched off
     pg.monitor_opts = plan_opts.pop("monitor_opts", 0.0)  # 'monitor' messages carrying subscribe() options
     pg.watch = plan_opts.pop("watch", 0.0)  # 'wait' messages watching a second group
+    pg.backstop = plan_opts.pop("backstop", 0.0)  # flyers left for 'close_run' to collect
     preprocessors = []
     if rng.random() < builtin:
         # bluesky's own plans (stage/run decorators, per-step checkpoints), optionally under the SupplementalData
@@ -206,7 +207,7 @@ WINDOW_OF = {"pause": "pausing", "dpause": "pausing", "abort": "aborting", "stop
 def interruption_cases(pid, seed, tier, *, K=(10, 16), kinds=None, dev_faults=0.0, decisions=None, rng=None, base=None, **base_opts):
     rng = rng or gen.rng_for(pid, seed)
     if base is None:
-        base_opts["plan_opts"] = {"builtin": 0.2, "prelude": 0.15, "clear": 0.12, "cleanup_checkpoint": 0.4, "monitor_opts": 0.4, "watch": 0.2, **(base_opts.get("plan_opts") or {})}
+        base_opts["plan_opts"] = {"builtin": 0.2, "prelude": 0.15, "clear": 0.12, "cleanup_checkpoint": 0.4, "monitor_opts": 0.4, "watch": 0.2, "backstop": 0.3, **(base_opts.get("plan_opts") or {})}
         base = base_case(pid, seed, rng, **base_opts)
         if rng.random() < 0.3:
             base["re"]["context_managers"] = "single_use"  # a user-supplied context manager around every blocking stretch
